@@ -531,6 +531,145 @@ fn composition_specs(seed: u64, max_len: usize) -> Vec<Spec> {
 	specs
 }
 
+/// Directed family: the server ends subscription A (close notification, or A lags) and later hands the same subscription
+/// id to a new subscription B. The consumer still holds the ended stream A and lets go of it at some point. B is a
+/// subscription of its own: it yields every notification sent for the id after B was accepted, does not end, and no
+/// unsubscribe request goes out until the consumer lets go of B itself (then exactly one).
+async fn id_issued_again_case(seed: u64) -> Out {
+	let mut out = Out::default();
+	let mut r = Rng::new(seed);
+	let buffer = 1 + r.usize(3);
+	let (client, mut srv) = client(ClientCfg { sub_buffer: buffer, string_ids: r.bool(), ..Default::default() });
+	let sub_id = if r.bool() { json!(77_000 + r.below(1000)) } else { json!(format!("sid-{}", r.below(1000))) };
+	macro_rules! bad {
+		($sig:expr, $($arg:tt)*) => { out.violations.push(($sig.to_string(), format!($($arg)*))) };
+	}
+	// answers subscribe calls with `sub_id`, acknowledges unsubscribe requests; returns the unsubscribe requests seen
+	fn serve(srv: &mut jrv::script::ServerSide, sub_id: &Value, out: &mut Out) -> usize {
+		let mut unsubs = 0;
+		for m in srv.drain_out() {
+			if let jrv::script::ClientOut::Msg { text, .. } = m {
+				if let WireMsg::Single(q) = parse_wire(&text) {
+					let id = q.id.clone().unwrap_or(Value::Null);
+					if q.method == "unsub" {
+						unsubs += 1;
+						out.unsub_requests += 1;
+						out.history.push(format!("client -> unsubscribe {}", q.params));
+						srv.push_text(ok_response(&id, json!(true)));
+					} else if q.method == "sub" {
+						srv.push_text(ok_response(&id, sub_id.clone()));
+					}
+				}
+			}
+		}
+		unsubs
+	}
+	let c = client.clone();
+	let t = tokio::spawn(async move { c.subscribe::<Value, _>("sub", rpc_params!["a"], "unsub").await });
+	settle().await;
+	serve(&mut srv, &sub_id, &mut out);
+	let Ok(Ok(Ok(mut a))) = tokio::time::timeout(Duration::from_secs(30), t).await else {
+		bad!("subscribe-failed/accepted-subscription", "setup A");
+		return out;
+	};
+	// A ends: server close, or lag (more than `buffer` unread notifications)
+	let by_lag = r.chance(1, 3);
+	if by_lag {
+		for k in 0..buffer + 1 + r.usize(2) {
+			srv.push_text(sub_notif("m", &sub_id, json!({"gen": "a", "seq": k})));
+		}
+		out.history.push("server floods A: it lags and is closed by the client".into());
+	} else {
+		srv.push_text(sub_notif("m", &sub_id, json!({"gen": "a", "seq": 0})));
+		srv.push_text(sub_close("m", &sub_id, json!("closed by the server")));
+		out.history.push("server closes A".into());
+	}
+	settle().await;
+	settle().await;
+	let unsub_for_a = serve(&mut srv, &sub_id, &mut out);
+	settle().await;
+	if by_lag && unsub_for_a != 1 {
+		bad!("unsubscribe-count/lag", "{unsub_for_a} unsubscribe request(s) for the lagging subscription");
+	}
+	// the consumer may or may not have read A to its end
+	let read_to_end = r.bool();
+	if read_to_end {
+		let mut n = 0;
+		while let Ok(Some(_)) = tokio::time::timeout(Duration::from_millis(20), a.next()).await {
+			n += 1;
+			if n > 100 {
+				break;
+			}
+		}
+	}
+	// B: the server issues the same id again
+	let c = client.clone();
+	let t = tokio::spawn(async move { c.subscribe::<Value, _>("sub", rpc_params!["b"], "unsub").await });
+	settle().await;
+	serve(&mut srv, &sub_id, &mut out);
+	let Ok(Ok(Ok(mut b))) = tokio::time::timeout(Duration::from_secs(30), t).await else {
+		bad!("subscribe-failed/accepted-subscription", "B: a subscribe answered with an id that no live subscription uses was refused");
+		return out;
+	};
+	out.history.push(format!("B accepted with the same id {sub_id}; A (ended, {}) is still held", if read_to_end { "read to its end" } else { "not read to its end" }));
+	let mut seq = 0u64;
+	let mut expect_b = |srv: &mut jrv::script::ServerSide, out: &mut Out, seq: &mut u64| {
+		*seq += 1;
+		srv.push_text(sub_notif("m", &sub_id, json!({"gen": "b", "seq": *seq})));
+		out.pushes += 1;
+		*seq
+	};
+	let want = expect_b(&mut srv, &mut out, &mut seq);
+	settle().await;
+	match tokio::time::timeout(Duration::from_millis(50), b.next()).await {
+		Ok(Some(Ok(v))) if v["seq"] == json!(want) && v["gen"] == json!("b") => out.items_yielded += 1,
+		other => bad!("item-missing/id-issued-again", "first notification after B was accepted: {other:?}"),
+	}
+	// the ended stream A goes away: dropped, or explicitly unsubscribed
+	let explicit = r.chance(1, 3);
+	if explicit {
+		let _ = tokio::time::timeout(Duration::from_secs(5), a.unsubscribe()).await;
+		out.history.push("consumer calls unsubscribe() on the ended stream A".into());
+	} else {
+		drop(a);
+		out.history.push("consumer drops the ended stream A".into());
+	}
+	settle().await;
+	settle().await;
+	let stale_unsubs = serve(&mut srv, &sub_id, &mut out);
+	settle().await;
+	if stale_unsubs != 0 {
+		bad!("unsubscribe-count/ended-stream-let-go", "{stale_unsubs} unsubscribe request(s) naming {sub_id} went out when the consumer let go of a stream that had already ended; the id belongs to a live subscription by now");
+	}
+	for _ in 0..1 + r.usize(3) {
+		let want = expect_b(&mut srv, &mut out, &mut seq);
+		settle().await;
+		match tokio::time::timeout(Duration::from_millis(50), b.next()).await {
+			Ok(Some(Ok(v))) if v["seq"] == json!(want) => out.items_yielded += 1,
+			Ok(None) => {
+				bad!("stream-ended-without-cause/id-issued-again", "B ended although the server did not close it, it did not lag and the connection is open (close_reason {:?})", b.close_reason());
+				break;
+			}
+			other => {
+				bad!("item-missing/id-issued-again", "notification {want} for B: {other:?}");
+				break;
+			}
+		}
+	}
+	// finally B itself is dropped: exactly one unsubscribe
+	let ended = b.close_reason().is_some();
+	drop(b);
+	settle().await;
+	settle().await;
+	let n = serve(&mut srv, &sub_id, &mut out);
+	if !ended && n != 1 {
+		bad!("unsubscribe-count/drop", "{n} unsubscribe request(s) after the live subscription B was dropped, expected exactly 1");
+	}
+	out.streams_ended += 1;
+	drop(client);
+	out
+}
+
 /// Directed scenario: the stream is dropped while the client's request queue is full, so the drop's own message to the
 /// background task is lost; a further notification for the subscription must then make the client send exactly one
 /// unsubscribe request naming it (without such a notification: at most one).
@@ -794,6 +933,34 @@ fn main() {
 				ev.count("unsubscribe_requests_on_the_wire", o.unsub_requests as u64);
 				ev.nontrivial(&("full-queue-drop", s));
 				let w = json!({"scenario": "drop with a full request queue", "seed": s, "history": o.history});
+				for (sig, d) in o.violations {
+					v.push(Violation::new(sig, d, w.clone()));
+				}
+			}
+			(ev, v)
+		});
+		for (e, v) in res {
+			ev.merge(e);
+			violations.extend(v);
+		}
+	}
+	if !replay {
+		let n = ctx.tier.pick(300u64, 20_000);
+		let seed = ctx.seed;
+		let res = run_parallel((0..16u64).collect(), |_, shard| {
+			let mut ev = Evidence::new("");
+			let mut v = Vec::new();
+			for i in 0..n / 16 {
+				let s = Rng::fork(seed, 32_000_000 + shard * 1_000_000 + i).next_u64();
+				let o = block_on_virtual(id_issued_again_case(s));
+				ev.eval();
+				ev.count("cases_subscription_id_issued_again", 1);
+				ev.count("unsubscribe_requests_on_the_wire", o.unsub_requests as u64);
+				ev.count("items_yielded", o.items_yielded as u64);
+				if o.items_yielded > 0 {
+					ev.nontrivial(&("id-issued-again", s));
+				}
+				let w = json!({"scenario": "subscription id issued again after the first subscription ended", "seed": s, "history": o.history});
 				for (sig, d) in o.violations {
 					v.push(Violation::new(sig, d, w.clone()));
 				}
